@@ -227,3 +227,23 @@ package types
 //@   requires validBech32(msg.Owner)
 //@   nopanic
 //@   ensures len(signers) == 1 && signers[0] == addrOf(msg.Owner)
+
+// ---------------------------------------------------------------- messages as seen by the ante decorators
+
+//@ typetag isMsgRegisterWrkChain asMsgRegisterWrkChain *MsgRegisterWrkChain
+//@ typetag isMsgRecordWrkChainBlock asMsgRecordWrkChainBlock *MsgRecordWrkChainBlock
+//@ typetag isMsgPurchaseWrkChainStateStorage asMsgPurchaseWrkChainStateStorage *MsgPurchaseWrkChainStateStorage
+
+//@ prelude
+//@ ;;@ need-type github.com/unification-com/mainchain/x/wrkchain/types.MsgPurchaseWrkChainStateStorage
+//@ ;;@ need-type github.com/unification-com/mainchain/x/wrkchain/types.Params
+//@ (define-fun isWrkMsg ((m Iface)) Bool (or (isMsgRegisterWrkChain m) (isMsgRecordWrkChainBlock m) (isMsgPurchaseWrkChainStateStorage m)))
+//@ ; the fee of one message under the current parameters (C06): registration, record, or per-slot storage fee x slots
+//@ (define-fun wrkFeeOf ((m Iface) (p wrkchain.Params)) Int
+//@   (ite (isMsgRegisterWrkChain m) (wrkchain.Params.FeeRegister p)
+//@   (ite (isMsgRecordWrkChainBlock m) (wrkchain.Params.FeeRecord p)
+//@   (ite (isMsgPurchaseWrkChainStateStorage m) (* (wrkchain.Params.FeePurchaseStorage p) (wrkchain.MsgPurchaseWrkChainStateStorage.Number (asMsgPurchaseWrkChainStateStorage m))) 0))))
+//@ (define-fun-rec wrkSumFee ((ms (Slice Iface)) (n Int) (p wrkchain.Params)) Int
+//@   (ite (<= n 0) 0 (+ (wrkSumFee ms (- n 1) p) (wrkFeeOf (select (sl.arr ms) (- n 1)) p))))
+//@ (define-fun wrkTx ((t Iface)) Bool (exists ((j Int)) (and (<= 0 j) (< j (sl.len (txMsgs t))) (isWrkMsg (select (sl.arr (txMsgs t)) j)))))
+//@ end
